@@ -96,6 +96,7 @@ EXTRA = {
  "C11": " Later additions: condition-driven loops around every body of <= 2 statements, literal-`ja` loops, depth-bounded templates, and jump-distance ladders up to the 64 KiB code limit (differential + static).",
  "C12": " Later additions: arity ladder (0..12 and around every power of two up to 255 arguments, x 0/1/3 locals, every parameter read back), empty bodies, locals in sibling blocks, frame-size and entry-offset ladders.",
  "C13": " Later additions: self-consistency where the model is silent (U8): after replacing a character by zero or several characters the printed text, lengte and per-character reads from both ends must describe the same string.",
+ "C17": " Later additions: deviation-bounded long sessions: four ordinary ten-line sessions, every crash point of every line with the rest of the session as continuation, and every insertion of one or two of 16 deviation lines at every position (62 000 sessions of up to 12 lines).",
  "C16": " Later additions: the batch has 40 programs (values equal under == but not identical, e.g. 0.0 / -0.0, 1 / 1.0); one 6 000-program history; a symbol-table scan for writable statics; violations carry the worker's evaluation log so that replay reproduces.",
 }
 for k, v in EXTRA.items():
